@@ -1525,7 +1525,7 @@ async fn tcp_observe(port: u16, cfg: &Arc<ClientConfig>) -> Result<(Vec<u8>, Tcp
         let der = s.get_ref().1.peer_certificates().and_then(|c| c.first().map(|x| x.to_vec())).ok_or_else(|| "no peer certificate".to_string())?;
         Ok((der, s))
     };
-    tokio::time::timeout(Duration::from_secs(2), fut).await.unwrap_or_else(|_| Err("no handshake within 2 s".into()))
+    tokio::time::timeout(Duration::from_secs(20), fut).await.unwrap_or_else(|_| Err("no handshake within 20 s".into()))
 }
 
 static SIG_SEQ: AtomicU64 = AtomicU64::new(0);
@@ -1568,7 +1568,7 @@ async fn start_sig_server(start: &Ident, live_cert: &str, live_key: &str, tls_ca
             host: vec!["127.0.0.1".to_string()],
             port: vec![lease.port],
             not_found_resp: "404".to_string(),
-            timeout: penguin_mux::timing::OptionalDuration::from_secs(60),
+            timeout: penguin_mux::timing::OptionalDuration::from_secs(900),
             tls_cert: Some(live_cert.to_string()),
             tls_key: Some(live_key.to_string()),
             tls_ca: tls_ca.clone(),
@@ -1746,7 +1746,7 @@ async fn run_sig_case(pki: &Pki, c: &SigCase, sink: &Sink<'_>, counters: &Counte
                 let s = tokio_rustls::TlsConnector::from(ccfg.clone()).connect(ServerName::try_from("localhost").expect("name"), tcp).await.map_err(|e| format!("TLS handshake: {e}"))?;
                 s.get_ref().1.peer_certificates().and_then(|c| c.first().map(|x| x.to_vec())).ok_or_else(|| "no peer certificate".to_string())
             };
-            let o: Result<Vec<u8>, String> = tokio::time::timeout(Duration::from_secs(3), fut).await.unwrap_or_else(|_| Err("no handshake within 3 s".into()));
+            let o: Result<Vec<u8>, String> = tokio::time::timeout(Duration::from_secs(20), fut).await.unwrap_or_else(|_| Err("no handshake within 20 s".into()));
             counters.evals.fetch_add(1, Ordering::Relaxed);
             let seen = match &o {
                 Ok(der) => label(der).to_string(),
@@ -1763,7 +1763,7 @@ async fn run_sig_case(pki: &Pki, c: &SigCase, sink: &Sink<'_>, counters: &Counte
         }
 
         // ---- the connection made before the first reload is still served
-        let alive = tokio::time::timeout(Duration::from_secs(5), async {
+        let alive = tokio::time::timeout(Duration::from_secs(30), async {
             let mut b = [0u8; 5];
             first.write_all(b"GET / HTTP/1.1\r\nHost: x\r\n\r\n").await.is_ok() && first.flush().await.is_ok() && first.read_exact(&mut b).await.is_ok() && &b == b"HTTP/"
         })
